@@ -1351,6 +1351,7 @@ def run(ctx: common.Ctx):
     check_function_bodies(ctx, t)
     check_result_sharing(ctx, t)
     check_edge_replacement(ctx, t)
+    check_replacement_below_multi_result_calls(ctx, t)
     check_edge_ladders(ctx, t)
     from . import c13_extra_args
     c13_extra_args.check_extra_args(ctx, build_graph, nested_specs)
@@ -1406,3 +1407,78 @@ def replay(ctx, path):
     print("re-running the C13 check on the current tree …")
     run(ctx)
     return ctx.finish()
+
+
+# --------------------------------------------------------------------------
+# replacement BELOW a call with several results: the result taken from the rebuilt call must be the one of the
+# same name (a mapper that re-reads "the first" entry is right for single-result functions only)
+# --------------------------------------------------------------------------
+
+def check_replacement_below_multi_result_calls(ctx, t: ch.Tables):
+    import numpy as np
+    import pytato as pt
+    runs = _substituting_runs(t)
+
+    def graphs():
+        x = pt.make_placeholder("x", (3,), np.float64)
+        y = pt.make_placeholder("y", (3,), np.float64)
+
+        def f_tuple(a, b):
+            return a + b, a * b, a - 2 * b
+
+        def f_dict(a, b):
+            return {"p": a + b, "zz": a * b, "m": a - 2 * b}
+
+        for fname, f, keys in (("tuple", f_tuple, (0, 1, 2)), ("dict", f_dict, ("p", "zz", "m"))):
+            leaf = x * 2
+            r = pt.trace_call(f, leaf, y)
+            for k in keys:
+                yield f"{fname}:result-{k}", pt.make_dict_of_named_arrays({"o": r[k] * 3}), leaf
+            yield f"{fname}:two-results", pt.make_dict_of_named_arrays({"o": r[keys[2]] + r[keys[1]]}), leaf
+    # CopyMapperWithExtraArgs leaves the mapping of function definitions to its users: a minimal user (CopyMapper's
+    # version with the extra arguments passed on), run with one positional and one keyword extra argument
+    from pytato.transform import CopyMapperWithExtraArgs
+
+    def run_extra(graph, subst):
+        class UserCopy(CopyMapperWithExtraArgs):
+            def get_cache_key(self, expr, *args, **kwargs):
+                return (expr, args, tuple(sorted(kwargs.items())))
+
+            def get_function_definition_cache_key(self, expr, *args, **kwargs):
+                return (expr, args, tuple(sorted(kwargs.items())))
+
+            def rec(self, expr, *args, **kwargs):
+                r = subst.get(id(expr))
+                return r if r is not None else super().rec(expr, *args, **kwargs)
+
+            def map_function_definition(self, expr, *args, **kwargs):
+                new_mapper = self.clone_for_callee(expr)
+                new_returns = {name: new_mapper(ret, *args, **kwargs) for name, ret in expr.returns.items()}
+                return expr.replace_if_different(returns=new_returns)
+        return UserCopy()(graph, 7, flag="k")
+    runs = runs + [("CopyMapperWithExtraArgs[user-subclass]", "CopyMapperWithExtraArgs", run_extra)]
+    n = dis = 0
+    not_judged: set[str] = set()
+    for gname, g, leaf in graphs():
+        new_leaf = pt.make_placeholder("w", (3,), np.float64) + 1
+        subst = {id(leaf): new_leaf}
+        try:
+            want = reflective_subst(g, subst)
+        except Exception as ex:   # noqa: BLE001
+            not_judged.add(f"{gname}:reflective:{type(ex).__name__}")
+            continue
+        for name, row, run in runs:
+            try:
+                with time_limit(TRAVERSAL_LIMIT_S):
+                    got = run(g, dict(subst))
+            except Exception as ex:   # noqa: BLE001  (mappers that refuse calls are judged by the tables)
+                not_judged.add(f"{name}:{type(ex).__name__}")
+                continue
+            n += 1
+            if not _same_structure(got, want) and not (got == want):
+                dis += 1
+                ctx.violation(f"transform-wrong-result-below-multi-result-call:{name.split('[')[0]}",
+                              f"{name}: the argument of a call with three results is replaced; the result of the mapper "
+                              f"is not the graph with that replacement applied ({gname})",
+                              {"check": "below-multi-result-calls", "mapper": name, "graph": gname})
+    ctx.note_batch("replacement-below-multi-result-calls", n, dis, exhaustive=False, not_judged=sorted(not_judged)[:20])
